@@ -201,7 +201,7 @@ def store_jobs(tier, rnd):
     if tier != "quick":
         configs = [("base", dict(MaxHist=4, VALS='{"u", "s1", "T"}'), 0), ("loops", dict(SCRIPT="ScriptLoop", MaxHist=2, NAMES='{"_x", "_X", "_y", "_z", "bad"}', MaxNames=2, MaxPkt=2, MaxLast=4, MaxId=2, PVALS='{"s1", "s2", "L"}', VALS='{"u", "s1", "L"}'), 1),
                    ("nest", dict(SCRIPT="ScriptNest", MaxHist=2, MaxId=3, CSLOTS="MCCSlots2"), 2)]
-    per_class = 1 if tier == "quick" else 6
+    per_class = 1 if tier == "quick" else 3
     jobs, covs = [], []
     for name, params, ci in configs:
         out, st, wd = run_tlc("MCStore", fault_cfg(params), "fault-" + name, timeout=3000)
@@ -326,7 +326,7 @@ def value_jobs(tier, rnd):
     if tier != "quick":
         plans = [("values", dict(base, maxhist=4)), ("packets", dict(base, kinds=["char", "list"], keys=["k"], pnames=["_x", "_X", "_y", "bad"], maxhist=4)),
                  ("growth", dict(base, kinds=["list", "char"], keys=["k"], pnames=["_x"], maxlist=5, maxhist=6))]
-    per_class = 2 if tier == "quick" else 8
+    per_class = 2 if tier == "quick" else 4
     jobs, covs = [], []
     for name, p in plans:
         out, st, wd = run_tlc("MCValue", cv.value_cfg(p), "vfault-" + name, timeout=3000)
@@ -456,7 +456,7 @@ def c17(tier, replay=None):
     jobs += vjobs
     covs += vcovs
     jobs += doc_jobs(tier)
-    maxk = 160 if tier == "quick" else 1200
+    maxk = 160 if tier == "quick" else 500
     results = pmap(run_fjob, [(binary, j, maxk, SEED + i) for i, j in enumerate(jobs)])
     tot = collections.Counter()
     sites = set()
